@@ -114,6 +114,11 @@ pub fn run(name: &str, a: &Args) -> Option<String> {
         "iso_vs_display" => {
             let e = crate::epoch::epoch(a, 0);
             let x = format!("{}", Formatter::new(e, consts::ISO8601));
+            // to_isoformat: the first 26 characters of the ISO8601_STD rendering (microsecond resolution)
+            let std = format!("{}", Formatter::new(e, consts::ISO8601_STD));
+            if std.len() >= 26 && std.is_char_boundary(26) {
+                assert!(e.to_isoformat() == std[..26], "to_isoformat differs from the ISO8601_STD rendering cut at 26");
+            }
             (if x == format!("{e}") { "1" } else { "0" }).to_string()
         }
         "fmt_render_const" => {
